@@ -160,3 +160,50 @@ __CPROVER_requires(g_obj == (self->m_control_block->is_inline ? (void*)&self->u.
 __CPROVER_assigns(g_step, self->u.m_ptr)
 __CPROVER_ensures(g_step == 1)                                                                                   /*@ob C20.destructor-destroys-the-stored-object-exactly-once */
 ;
+
+/* ---- IsInline<U> (the constant expression that decides buffer vs heap) and the converting constructor (C20: "regardless of size,
+   alignment ... no invalid memory access").  sizeof(U), alignof(U) and the nothrow-move trait are symbolic; BufferSize / BufferAlignment
+   are the defaults of the class template (64 - sizeof(control_block*) = 56, alignof(void*) = 8) ---- */
+#if UNIT_INLINE
+#define BufferSize ((size_t)BUFSZ)
+#define BufferAlignment ((size_t)8)
+#define MEMBER_INIT(name, e) return (e)
+_Bool IsInline(size_t size_U, size_t align_U, _Bool nothrow_move_U)
+__CPROVER_requires(size_U >= 1 && align_U >= 1)
+__CPROVER_assigns()
+__CPROVER_ensures(__CPROVER_return_value ==> size_U <= BufferSize)                                   /*@ob C20.inline-storage-only-for-objects-that-fit-the-buffer */
+__CPROVER_ensures(__CPROVER_return_value ==> align_U <= BufferAlignment)                             /*@ob C20.inline-storage-only-for-objects-the-buffer-alignment-suits */
+__CPROVER_ensures(__CPROVER_return_value ==> nothrow_move_U)                                         /*@ob C20.inline-storage-only-if-the-move-cannot-throw */
+__CPROVER_ensures((size_U <= BufferSize && align_U <= BufferAlignment && nothrow_move_U) ==> __CPROVER_return_value)
+;
+#endif
+#if UNIT_CONV_CTOR
+extern const size_t g_size_U, g_align_U; extern const _Bool g_nothrow_move_U, g_trivial_U; extern int g_built;
+extern const control_block g_cb_inline, g_cb_heap;
+_Bool IsInline(size_t size_U, size_t align_U, _Bool nothrow_move_U)       /* the contract proved by the IsInline unit */
+__CPROVER_requires(size_U >= 1 && align_U >= 1)
+__CPROVER_assigns()
+__CPROVER_ensures(__CPROVER_return_value ==> (size_U <= BUFSZ && align_U <= 8 && nothrow_move_U))
+;
+#define IS_INLINE_U is_inline_U
+void placement_new_copy(void* where, const void* obj)           /* new (&m_buffer) U(obj) */
+__CPROVER_requires(where == g_dest && g_built == 0)                               /*@ob C20.object-constructed-exactly-once-in-the-own-buffer */
+__CPROVER_requires(g_size_U <= BUFSZ && g_align_U <= 8)                           /*@ob C20.object-constructed-in-the-buffer-fits-size-and-alignment */
+__CPROVER_assigns(g_built)
+__CPROVER_ensures(g_built == 1)
+;
+void* heap_new_copy(const void* obj)                             /* new U(obj) */
+__CPROVER_requires(g_built == 0)
+__CPROVER_assigns(g_built)
+__CPROVER_ensures(g_built == 2 && __CPROVER_return_value == g_heap_obj)
+;
+extern void* const g_heap_obj;
+void poly_conv_ctor(poly_t* self, const void* obj)
+__CPROVER_requires(__CPROVER_is_fresh(self, sizeof(*self)) && __CPROVER_is_fresh(obj, BUFSZ) && g_dest == (void*)&self->u.m_buffer && g_built == 0 && g_size_U >= 1 && g_align_U >= 1)
+__CPROVER_assigns(__CPROVER_object_whole(self), g_built)
+__CPROVER_ensures(g_built == 1 || g_built == 2)                                                                 /*@ob C20.stored-object-constructed-exactly-once */
+__CPROVER_ensures(g_built == 1 ==> (self->m_control_block == &g_cb_inline && g_size_U <= BUFSZ && g_align_U <= 8))   /*@ob C20.inline-control-block-iff-the-object-lives-in-the-buffer */
+__CPROVER_ensures(g_built == 2 ==> (self->m_control_block == &g_cb_heap && self->u.m_ptr == g_heap_obj))             /*@ob C20.heap-control-block-iff-the-object-lives-on-the-heap */
+__CPROVER_ensures((g_built == 1 && g_trivial_U) ==> self->u.m_buffer[g_k % BUFSZ] == ((const unsigned char*)obj)[g_k % BUFSZ] || g_k % BUFSZ >= g_size_U)   /*@ob C20.trivially-copyable-object-copied-byte-for-byte */
+;
+#endif
